@@ -11,7 +11,9 @@ ID = "C09"
 LEVEL = "exploration"
 RULE = ("histories on ONE cleaner: 3-30 clean_content calls ('specs') of 1-20 slot lines whose originals come from small "
         "pools (so they recur on the same line, on later lines and in later specs, in both orders); the IPv4 pool "
-        "deliberately contains addresses inside the obfuscator's own substitute range; monitors: slot-wise reconstruction "
+        "deliberately contains addresses inside the obfuscator's own substitute range, addresses carry trailing punctuation, "
+        "keyword pairs nested in one another, a MAC that is textually the substitute of another MAC; monitors: every substitute "
+        "the mapping reports must occur in the output; slot-wise reconstruction "
         "of original -> substitute from the output skeleton, class invariants on IPv4/Hostname/Mac/Keyword (tables only "
         "grow, IPv4 and host tables one-to-one; icontract when installed, plain wrappers otherwise) evaluated around every "
         "parse_line, and comparison with mapping(), the RHSM facts file and the CSV reports; one evaluation = one "
